@@ -14,8 +14,11 @@ use std::fmt;
 
 #[derive(Clone, Debug, PartialEq, Eq, Hash)]
 pub enum Seg {
+    /// value position of a map entry (a `next_value` frame)
     Key(String),
     Idx(usize),
+    /// payload position of an enum variant
+    Var(String),
 }
 
 pub fn is_private_key(k: &str) -> bool {
@@ -44,6 +47,7 @@ pub struct HintRec {
     pub hint: &'static str,
     pub plen: usize,
     pub in_key: bool,
+    pub key_depth: usize,
     pub name: String,
 }
 
@@ -57,6 +61,10 @@ pub struct Fired {
     pub payload: String,
     pub hints: Vec<HintRec>,
     pub seq: u32,
+    /// when `in_key`: ordinal of the key being read in its map (0 for an enum's variant key)
+    pub key_index: usize,
+    /// number of nested key reads active (1 = a plain key; 2 = inside the Spanned protocol of a key, ...)
+    pub key_depth: usize,
 }
 
 pub struct Ctx {
@@ -69,6 +77,7 @@ pub struct Ctx {
     pub path: RefCell<Vec<Seg>>,
     pub hints: RefCell<Vec<HintRec>>,
     keycap: RefCell<Vec<Option<String>>>,
+    keyidx: RefCell<Vec<usize>>,
     /// running hashes: shape (kinds+depth only) and digest (with payloads)
     pub shape: Cell<u64>,
     pub digest: Cell<u64>,
@@ -96,6 +105,7 @@ impl Ctx {
             path: RefCell::new(Vec::new()),
             hints: RefCell::new(Vec::new()),
             keycap: RefCell::new(Vec::new()),
+            keyidx: RefCell::new(Vec::new()),
             shape: Cell::new(0xcbf29ce484222325),
             digest: Cell::new(0xcbf29ce484222325),
             nev: Cell::new(0),
@@ -122,11 +132,23 @@ impl Ctx {
     fn hint_enter(&self, hint: &'static str, name: &str) {
         self.ev('D', hint, name);
         let plen = self.path.borrow().len();
-        self.hints.borrow_mut().push(HintRec { hint, plen, in_key: self.in_key(), name: name.to_string() });
+        let key_depth = self.keycap.borrow().len();
+        self.hints.borrow_mut().push(HintRec { hint, plen, in_key: self.in_key(), key_depth, name: name.to_string() });
     }
     fn hint_exit(&self, ok: bool) {
         self.hints.borrow_mut().pop();
         self.ev('R', if ok { "ok" } else { "err" }, "");
+    }
+    /// end of a key read: the captured key string; an enclosing key read (enum-typed or spanned key)
+    /// inherits it unless it is a private protocol name
+    fn pop_key(&self) -> Option<String> {
+        let v = self.keycap.borrow_mut().pop().flatten();
+        if let (Some(s), Some(top)) = (&v, self.keycap.borrow_mut().last_mut()) {
+            if !is_private_key(s) {
+                *top = Some(s.clone());
+            }
+        }
+        v
     }
     fn note_str(&self, s: &str) {
         if let Some(top) = self.keycap.borrow_mut().last_mut() {
@@ -143,6 +165,8 @@ impl Ctx {
             payload: payload.to_string(),
             hints: self.hints.borrow().clone(),
             seq: self.nev.get(),
+            key_index: self.keyidx.borrow().first().copied().unwrap_or(0),
+            key_depth: self.keycap.borrow().len(),
         });
     }
     fn vis_enter<E: de::Error>(&self, cb: &'static str, payload: &str) -> Result<u32, E> {
@@ -350,7 +374,7 @@ impl<'de, 'c, V: Visitor<'de>> Visitor<'de> for PVis<'c, V> {
     fn visit_map<A: MapAccess<'de>>(self, a: A) -> Result<V::Value, A::Error> {
         let cx = self.cx;
         let idx = cx.vis_enter("visit_map", "")?;
-        let r = self.v.visit_map(PMap { a, cx, key: None });
+        let r = self.v.visit_map(PMap { a, cx, key: None, nkeys: 0 });
         cx.vis_exit(idx, "visit_map", "", r)
     }
     fn visit_enum<A: EnumAccess<'de>>(self, a: A) -> Result<V::Value, A::Error> {
@@ -400,6 +424,7 @@ pub struct PMap<'c, A> {
     a: A,
     cx: &'c Ctx,
     key: Option<String>,
+    nkeys: usize,
 }
 impl<'de, 'c, A: MapAccess<'de>> MapAccess<'de> for PMap<'c, A> {
     type Error = A::Error;
@@ -407,8 +432,11 @@ impl<'de, 'c, A: MapAccess<'de>> MapAccess<'de> for PMap<'c, A> {
         let cx = self.cx;
         cx.ev('A', "next_key", "");
         cx.keycap.borrow_mut().push(None);
+        cx.keyidx.borrow_mut().push(self.nkeys);
+        self.nkeys += 1;
         let r = self.a.next_key_seed(PSeed { s: seed, cx });
-        self.key = cx.keycap.borrow_mut().pop().flatten();
+        cx.keyidx.borrow_mut().pop();
+        self.key = cx.pop_key();
         cx.ev('R', match &r { Ok(Some(_)) => "some", Ok(None) => "none", Err(_) => "err" }, "");
         r
     }
@@ -440,8 +468,10 @@ impl<'de, 'c, A: EnumAccess<'de>> EnumAccess<'de> for PEnum<'c, A> {
         let cx = self.cx;
         cx.ev('A', "variant", "");
         cx.keycap.borrow_mut().push(None);
+        cx.keyidx.borrow_mut().push(0);
         let r = self.a.variant_seed(PSeed { s: seed, cx });
-        let key = cx.keycap.borrow_mut().pop().flatten();
+        cx.keyidx.borrow_mut().pop();
+        let key = cx.pop_key();
         cx.ev('R', if r.is_ok() { "ok" } else { "err" }, "");
         let (v, a) = r?;
         Ok((v, PVariant { a, cx, key: key.unwrap_or_else(|| "<unknown-variant>".to_string()) }))
@@ -465,7 +495,7 @@ impl<'de, 'c, A: VariantAccess<'de>> VariantAccess<'de> for PVariant<'c, A> {
     fn newtype_variant_seed<T: DeserializeSeed<'de>>(self, seed: T) -> Result<T::Value, A::Error> {
         let cx = self.cx;
         cx.ev('A', "newtype_variant", "");
-        cx.path.borrow_mut().push(Seg::Key(self.key));
+        cx.path.borrow_mut().push(Seg::Var(self.key));
         let r = self.a.newtype_variant_seed(PSeed { s: seed, cx });
         cx.path.borrow_mut().pop();
         cx.ev('R', if r.is_ok() { "ok" } else { "err" }, "");
@@ -474,7 +504,7 @@ impl<'de, 'c, A: VariantAccess<'de>> VariantAccess<'de> for PVariant<'c, A> {
     fn tuple_variant<V: Visitor<'de>>(self, len: usize, v: V) -> Result<V::Value, A::Error> {
         let cx = self.cx;
         cx.ev('A', "tuple_variant", &len.to_string());
-        cx.path.borrow_mut().push(Seg::Key(self.key));
+        cx.path.borrow_mut().push(Seg::Var(self.key));
         let r = self.a.tuple_variant(len, PVis { v, cx });
         cx.path.borrow_mut().pop();
         cx.ev('R', if r.is_ok() { "ok" } else { "err" }, "");
@@ -483,7 +513,7 @@ impl<'de, 'c, A: VariantAccess<'de>> VariantAccess<'de> for PVariant<'c, A> {
     fn struct_variant<V: Visitor<'de>>(self, fields: &'static [&'static str], v: V) -> Result<V::Value, A::Error> {
         let cx = self.cx;
         cx.ev('A', "struct_variant", &format!("{fields:?}"));
-        cx.path.borrow_mut().push(Seg::Key(self.key));
+        cx.path.borrow_mut().push(Seg::Var(self.key));
         let r = self.a.struct_variant(fields, PVis { v, cx });
         cx.path.borrow_mut().pop();
         cx.ev('R', if r.is_ok() { "ok" } else { "err" }, "");
